@@ -43,6 +43,9 @@ def shapes(depth, small=False):
         out.append(["Sequence", [["s0", x], [None, BYTE]]])
         out.append(["Array", 2, ["Struct", [["e", x]]]])
         out.append(["Prefixed", BYTE, ["Struct", [["in", x], ["z", BYTE]]], False])
+        out.append(["Struct", [["pi", ["Prefixed", BYTE, ["Struct", [["in", x]]], True]], ["z", BYTE]]])
+        # includelength with a length field that has no static size: fails while measuring the length field itself
+        out.append(["Struct", [["pv", ["Prefixed", ["VarInt"], ["Struct", [["in", x]]], True]], ["z", BYTE]]])
         out.append(["FixedSized", 6, ["Struct", [["f", x]]]])
         out.append(["Padded", 6, ["Struct", [["g", x]]], b"\x00"])
         out.append(["IfThenElse", True, ["Renamed", x, "t"], ["Renamed", BYTE, "e"]])
@@ -205,10 +208,22 @@ def subst(t, slot, new):
     raise ValueError(slot)
 
 
+def measurable_twin(t):
+    """the same shape with every unsized includelength prefix replaced by a one-byte one (source of values/inputs for shapes that
+    reject everything)"""
+    if isinstance(t, list):
+        if t and t[0] == "Prefixed" and t[1] == ["VarInt"] and len(t) > 3 and t[3] is True:
+            return ["Prefixed", BYTE, measurable_twin(t[2]), True]
+        return [measurable_twin(x) for x in t]
+    return t
+
+
 def run_shape(t, tier, r):
     d = T.mk(t)
     tsig = T.sig_of(t, 3)
     sds = seeds(t)
+    if not sds and measurable_twin(t) != t:
+        sds = seeds(measurable_twin(t))
     for v, b in sds:
         # ---- (a) truncations and byte replacements
         inputs = [b[:cut] for cut in range(len(b))]
